@@ -5,7 +5,18 @@ package lucene
 // Bounded stand-in / counterexample search for property C07.
 // Juxtaposition means AND, with the precedence of AND.
 // Injected into the repository root with `go test -overlay`; never written to /repo.
-// Interface: /verif/harness/README.md.
+// Interface: /verif/harness/README.md (VERIF_TIER, VERIF_SEED, VERIF_REPORT).
+//
+// The oracle is the property statement: trees are built with the public
+// constructors of pkg/lucene/expr, printed by a printer that knows only the
+// documented precedence table (OR < AND < NOT < ^ < ~ < - < +, binary operators
+// left-associative, field:value binds tightest), and compared with what Parse
+// returns; relations between two Parse runs are used where the statement is one.
+// Every failure is classified: it is attributed to a failing operand if there is
+// one, otherwise minimised, and the tag names the minimal shape.  Failures of the
+// current code are findings and are reported, never filtered.
+// The common core at the end of the file is shared (as a copy with another
+// identifier prefix) with the other parser stand-ins.
 
 import (
 	"encoding/json"
@@ -276,6 +287,21 @@ func vc07CheckTree(n *vc07node, a *vc07agg, budget *int, wantSample bool) {
 						x = elig[i]
 					}
 				}
+				if after, before := vc07GapContext(x); re[d].ok() && rj.panic == "" && after+before != "" {
+					// rejected next to a bracket or a prefix operator: the context is the category
+					cat := "juxtaposition-rejected" + after + before
+					singleCat[d][m] = cat
+					if len(juxt) <= 32 {
+						opt := ""
+						if d == 1 {
+							opt = " (both parsed with a default field)"
+						}
+						a.fail(cat, juxt, fmt.Sprintf("with AND written out %s gives %s, but juxtaposed gives %s%s", strconv.Quote(explicit), re[d].String(), rj.String(), opt))
+					} else {
+						a.fail(cat, "", "")
+					}
+					continue
+				}
 				cat, input, detail := vc07Classify(n, x, d == 1, budget)
 				singleCat[d][m] = cat
 				a.fail(cat, input, detail)
@@ -383,10 +409,14 @@ func TestVerifStandin_C07(t *testing.T) {
 
 	// phase C: chains x1 . x2 . ... . xn with every . in {AND, OR} (left-associative, AND
 	// binding tighter), every subset of the ANDs juxtaposed
-	ops := vc07ChainOperands(leaves)[:chainOps]
+	allOps := vc07ChainOperands(leaves)
 	var chains int64
 	for n := 3; n <= chainLen; n++ {
 		nn := n
+		ops := allOps[:chainOps]
+		if nn >= 5 {
+			ops = []*vc07node{allOps[0], allOps[1], allOps[2], allOps[4], allOps[5], allOps[6], allOps[7], allOps[10]}
+		}
 		combos := 1
 		for i := 0; i < nn-1; i++ {
 			combos *= len(ops)
@@ -453,7 +483,7 @@ func TestVerifStandin_C07(t *testing.T) {
 
 	bound := fmt.Sprintf("expression trees as in C05 (OR, AND, NOT, ^, ~, -, + over a %d-leaf alphabet covering every leaf form and value kind) that contain an AND: "+
 		"all of depth <= 1 over the full alphabet and all of depth 2 over the first %d leaves (%d trees); "+
-		"%d flat chains of 3..%d operands from %d operand shapes (terms, NOT/+/- prefixed, ^/~ suffixed, range, group, list) with every AND/OR connector pattern; "+
+		"%d flat chains of 3..%d operands from %d operand shapes (terms, NOT/+/- prefixed, ^/~ suffixed, range, group, list; 8 of them for 5 operands) with every AND/OR connector pattern; "+
 		"%d seeded random trees of depth 2..%d; for each tree every non-empty subset of the eligible AND nodes (all but those whose left operand ends in a bare ^ or ~) is written as juxtaposition "+
 		"(all subsets up to 6 nodes, beyond that singles, pairs and the full set), parsed without and with a default field and compared with the parse of the fully explicit text. "+
 		"distinct_nontrivial = evaluations: every (tree, subset, option) gives a different input by construction.",
@@ -655,10 +685,11 @@ func vc07build(n *vc07node) *expr.Expression {
 
 // decorations of a node, addressed by its preorder index in the tree
 const (
-	vc07dJuxt   = 1 // AND node: write no operator, only whitespace
-	vc07dParen1 = 2 // one redundant pair of parentheses around the node
-	vc07dParen2 = 4 // two more redundant pairs
-	vc07dValue  = 8 // leaf: redundant parentheses around the field's value
+	vc07dJuxt   = 1  // AND node: write no operator, only whitespace
+	vc07dParen1 = 2  // one redundant pair of parentheses around the node
+	vc07dParen2 = 4  // two more redundant pairs
+	vc07dValue  = 8  // leaf: redundant parentheses around the field's value
+	vc07dElems  = 16 // value-list leaf: redundant parentheses around every element (the operands of its ORs)
 )
 
 type vc07printer struct {
@@ -715,7 +746,13 @@ func (p *vc07printer) node(n *vc07node, minPrec int, operand bool) {
 			if d&vc07dValue != 0 && i == n.vs {
 				p.emit(vc07ts("("))
 			}
-			p.emit(t)
+			if elem := d&vc07dElems != 0 && n.form == "list" && i > 2 && i < len(n.toks)-1 && t.k != 'k'; elem {
+				p.emit(vc07ts("("))
+				p.emit(t)
+				p.emit(vc07ts(")"))
+			} else {
+				p.emit(t)
+			}
 			if d&vc07dValue != 0 && i == n.ve-1 {
 				p.emit(vc07ts(")"))
 			}
@@ -1290,8 +1327,8 @@ func vc07msgLess(a, b vc07msg) bool {
 
 func (c *vc07cat) add(m vc07msg) {
 	for i, o := range c.best {
-		if o.input == m.input { // one message per input
-			if vc07msgLess(m, o) {
+		if o.input == m.input { // one message per input, the shorter one
+			if len(m.text) < len(o.text) || (len(m.text) == len(o.text) && m.text < o.text) {
 				c.best[i] = m
 			}
 			return
